@@ -69,8 +69,8 @@ def gen_layout(rng):
             n = rng.randint(1, left)
             chain = rng.choice(CHAINS)
             need_pw |= "aes" in chain
-            folders.append({"nfiles": n, "coders": [dict({"id": c}, **({"dist": rng.randint(1, 256)} if c == "delta" else {}))
-                                                    for c in chain], "crc": rng.choice(["substream", "substream", "folder", "none"])})
+            cs = [dict({"id": c}, **({"dist": rng.randint(1, 256)} if c == "delta" else {})) for c in chain]
+            folders.append({"nfiles": n, "coders": cs, "crc": rng.choice(["substream", "substream", "folder", "none"])})
             left -= n
         lay["folders"] = folders
     opt = lambda key, vals: lay.__setitem__(key, rng.choice(vals)) if rng.random() < .6 else None  # noqa: E731
@@ -286,7 +286,8 @@ def check_tree(name, blob, pw):
         b2 = build_from_tree(set_at(copy.deepcopy(tree), sites[0], 0x123456789A))
         nofs, nsize, ncrc = struct.unpack("<QQI", b2[12:32])
         assert b2 != blob and crc32(b2[12:32]) == struct.unpack("<I", b2[8:12])[0], "start header not re-sealed"
-        assert crc32(b2[32 + nofs:32 + nofs + nsize]) == ncrc and 32 + nofs + nsize + len(tree["tail"]) == len(b2), "next header not re-sealed"
+        assert crc32(b2[32 + nofs:32 + nofs + nsize]) == ncrc, "next header not re-sealed"
+        assert 32 + nofs + nsize + len(tree["tail"]) == len(b2), "next header offset/size not re-sealed"
         if tree["encoded"] is None:
             assert enc_number(0x123456789A) in b2[32 + nofs:], "edited NUMBER not found"
     return len(sites)
@@ -468,7 +469,8 @@ def part_d(archives, log):
     log("(d1) py7zr reads random refcodec archives: %d/%d agree; disagreement classes: %s" % (agree, total, json.dumps(seen)))
     files = [("one.txt", b"one " * 100), ("two.bin", bytes(range(256)) * 3), ("empty.dat", b"")]
     cfgs = [{}, {"raw_header": True}, {"filters": [{"id": "FILTER_LZMA"}]}, {"filters": [{"id": "FILTER_COPY"}]},
-            {"filters": [{"id": "FILTER_BZIP2"}]}, {"filters": [{"id": "FILTER_DEFLATE"}]}, {"filters": [{"id": "FILTER_ZSTD", "level": 3}]},
+            {"filters": [{"id": "FILTER_BZIP2"}]}, {"filters": [{"id": "FILTER_DEFLATE"}]},
+            {"filters": [{"id": "FILTER_ZSTD", "level": 3}]},
             {"filters": [{"id": "FILTER_PPMD", "order": 6, "mem": 24}]}, {"filters": [{"id": "FILTER_BROTLI", "level": 5}]},
             {"filters": [{"id": "FILTER_DELTA"}, {"id": "FILTER_LZMA2", "preset": 1}]},
             {"filters": [{"id": "FILTER_X86"}, {"id": "FILTER_LZMA", "preset": 1}]},
@@ -476,7 +478,7 @@ def part_d(archives, log):
             {"password": "secret"}, {"password": "secret", "header_encryption": True},
             {"password": "secret", "raw_header": True},
             {"filters": [{"id": "FILTER_ZSTD", "level": 3}, {"id": "FILTER_CRYPTO_AES256_SHA256"}], "password": "secret"}]
-    ok = 0
+    ok, soft = 0, {}
     for cfg in cfgs:
         cfg = dict(cfg, files=files)
         tag = json.dumps({k: v for k, v in cfg.items() if k != "files"})
@@ -497,13 +499,23 @@ def part_d(archives, log):
             got = {m["name"]: (m["kind"], m["data"]) for m in p.members}
             diff = {k: (got.get(k, ("missing",))[0], want.get(k, ("unexpected",))[0]) for k in set(got) | set(want)
                     if got.get(k) != want.get(k)}
+            msgs = []
             if diff:
-                log("PY7ZR-DISAGREES: [py7zr write %s] members differ {name: (kind read, kind expected)}: %r; notes: %s"
-                    % (tag, diff, p.notes[:2]))
+                msgs.append("members differ {name: (kind read, kind expected)}: %r; reader notes: %s" % (diff, p.notes[:2]))
+            for fo in p.folders:
+                for cdr in fo["coders"]:
+                    if cdr["method"] == "030401" and len(cdr["props"] or "") != 10:
+                        msgs.append("PPMd coder properties are %d bytes (%s); 7-Zip writes exactly 5 (order, mem)"
+                                    % (len(cdr["props"]) // 2, cdr["props"]))
+            for msg in msgs:
+                if msg not in soft:
+                    log("PY7ZR-DISAGREES: [py7zr write %s] %s" % (tag, msg))
+                soft[msg] = soft.get(msg, 0) + 1
             parse_to_tree(blob, cfg.get("password"))
         except Exception as e:
             log("PY7ZR-DISAGREES: [py7zr write %s] reader: %s: %s" % (tag, type(e).__name__, e))
-    log("(d2) refcodec strictly reads py7zr archives: %d/%d" % (ok, len(cfgs)))
+    log("(d2) refcodec strictly reads py7zr archives: %d/%d; soft disagreements (count of archives): %s"
+        % (ok, len(cfgs), json.dumps(soft)[:600]))
 
 
 def main(argv=None):
@@ -518,7 +530,8 @@ def main(argv=None):
     assert coders.encode(dict(f1, id="lzma"), b"")[1] == lzma._encode_filter_properties(dict(f1, id=lzma.FILTER_LZMA1))
     assert coders.encode({"id": "lzma2", "dict_size": 3 << 19}, b"")[1] == \
         lzma._encode_filter_properties({"id": lzma.FILTER_LZMA2, "dict_size": 3 << 19})
-    assert coders.encode({"id": "delta", "dist": 77}, b"")[1] == lzma._encode_filter_properties({"id": lzma.FILTER_DELTA, "dist": 77})
+    assert coders.encode({"id": "delta", "dist": 77}, b"")[1] == \
+        lzma._encode_filter_properties({"id": lzma.FILTER_DELTA, "dist": 77})
     fa, archives = part_a(n, 20261004, log)
     fb = part_b(log)
     fc = part_c(archives, log)
